@@ -16,7 +16,7 @@ vars == <<cmd, opts, expr, doc, phase, exit, stderrLines, traceback, wrote>>
 Cmds == {"path", "pointer", "patch"}
 \* expression classes per sub-command; "ok*" classes succeed, the others name the library error
 ExprClasses(c) ==
-  CASE c = "path" -> {"ok", "ok-filter", "ok-escape", "ok-empty-result", "ok-empty-query", "ok-union", "ok-intersection", "syntax", "type", "name", "index", "illtyped-only-when-checked", "unterminated", "bad-regex"}
+  CASE c = "path" -> {"ok", "ok-filter", "ok-escape", "ok-empty-result", "ok-empty-query", "ok-union", "ok-intersection", "ok-multiline", "syntax", "type", "name", "index", "illtyped-only-when-checked", "unterminated", "bad-regex"}
     [] c = "pointer" -> {"ok", "ok-root", "ok-escape", "ok-uri", "ok-nonascii", "unresolvable-key", "unresolvable-index", "into-scalar", "no-leading-slash"}
     [] c = "patch" -> {"ok", "ok-root", "ok-empty", "ok-escape", "non-object-member", "test-fails", "missing-target", "not-an-array", "malformed-json", "unknown-op", "missing-member", "bad-pointer", "undecodable"}
 DocClasses == {"object", "array", "malformed", "malformed-scalar", "undecodable", "empty-file"}
